@@ -1,6 +1,6 @@
 """C04 - every operation terminates; losing the connection fails all pending work."""
 from facts import walk, callee_of, call_args, loc
-import hirq, anchors
+import hirq, anchors, absx, sem
 
 EXPLANATION = ("L1 reply senders are owned only by the driver's two routing maps, the request tuple and the LdapOp::Search payload; the "
                "driver loop takes the driver by value, so every exit drops them; no mem::forget / ManuallyDrop / Box::leak / into_raw in "
@@ -110,7 +110,7 @@ def run(ctx):
         ctx.add('L2.write-error-returns-err', 'request', loc(n), ok, 'a failed socket write does not end the driver with Err')
     ctx.floor('L2', 'wire sends', len(wire), 1)
 
-    # ---- L3 caller side
+    # ---- L3 / L4 caller side, decided on the enumerated paths of each caller body
     caller_bodies = [C.op_call_path]
     for suffix in ('::next_inner', '::finish_inner'):
         caller_bodies += [p for p in f.hir if p.startswith('ldap3::search::SearchStream') and p.endswith(suffix)]
@@ -119,30 +119,76 @@ def run(ctx):
     for p in caller_bodies:
         B = hirq.Body(f, f.hir[p])
         ctx.analysed['bodies'].add(p)
-        for n, c in walk(B.root):
-            is_chan_call = n['k'] == 'MethodCall' and n['name'] in ('send', 'recv') and 'tokio::sync::' in hirq.strip_refs(n['recv'].get('ty', ''))
-            is_rx_await = n['k'] == 'Await' and 'tokio::sync::oneshot::Receiver' in (n['e'].get('ty') or '')
-            is_timeout_await = n['k'] == 'Await' and (n['e'].get('ty') or '').startswith('tokio::time::timeout::Timeout<')
-            if not (is_chan_call or is_rx_await or is_timeout_await):
-                continue
+        outs, _I = sem.paths(f, B, result_combinators=True)
+        sites = {}      # node id -> (kind, node, result-term predicate)
+        for o in outs:
+            for i, cal, args, node in sem.calls(o, lambda c: c.rsplit('::', 1)[-1] in ('send', 'recv')):
+                if 'tokio::sync::' in sem.recv_ty(node):
+                    sites.setdefault(node.get('id'), (node['name'], node))
+            for i, t, node in sem.awaits(o):
+                ty = node['e'].get('ty') or ''
+                if 'tokio::sync::oneshot::Receiver' in ty or ty.startswith('tokio::time::timeout::Timeout<'):
+                    sites.setdefault(node.get('id'), ('await', node))
+        for sid, (kind, node) in sorted(sites.items(), key=lambda kv: str(kv[0])):
             n_sites += 1
-            verdict = consumption(B, n, c)
-            in_loop = any(a['k'] in ('Loop', 'While', 'For') for a, _ in c)
-            ok = verdict in ('try', 'match-err-returns', 'logged') and not in_loop
-            if verdict == 'logged' and not p.endswith('::finish_inner'):
-                ok = False
-            ctx.add('L3.channel-result-handled', '%s|%s' % (p, n.get('name', 'await')), loc(n), ok,
+            inst = '%s|%s' % (p, kind)
+            def derived(v, sid=sid, node=node):
+                """v is the result of this site or a component of it"""
+                return sem.has(v, lambda x: (x[0] == 'call' and x[3] == sid) or (x[0] == 'await' and node['k'] == 'Await' and sem.strip_site(x[1]) == sem.strip_site(await_arg.get(sid))))
+            await_arg = {}
+            if node['k'] == 'Await':
+                for o in outs:
+                    for i, t, n2 in sem.awaits(o):
+                        if n2 is node:
+                            await_arg[sid] = t
+            fail_paths = [o for o in outs if sem.failed(o, derived)]
+            unwrapped = [e for o in outs for e in o.st.ev if e[0] in ('may-panic', 'panic') and any(derived(a) for a in e[2])]
+            in_loop = any(a['k'] in ('Loop', 'While', 'For') for a, _ in B.context(node))
+            if unwrapped:
+                ok, verdict = False, 'unwrapped'
+            elif not fail_paths:
+                ok, verdict = False, 'never tested (a closed channel goes unnoticed)'
+            elif p.endswith('::finish_inner') and kind == 'send':
+                ok, verdict = True, 'logged'
+            else:
+                bad = [o for o in fail_paths if not (o.kind in ('ret', 'val') and sem.is_err_result(o.val))]
+                ok, verdict = not bad, ('returned as an error' if not bad else 'tested, but a failure path returns %s' % absx.fmt(bad[0].val)[:50])
+            ctx.add('L3.channel-result-handled', inst, loc(node), ok and not in_loop,
                     'result of a channel operation is %s%s: a closed channel does not become an error for the caller' % (verdict, ' inside a loop' if in_loop else ''))
     ctx.floor('L3', 'caller-side channel operations', n_sites, 7)
+    # what was delivered is returned: the stream reports its end only when the item channel itself yielded None (closed and drained)
+    for p in [q for q in caller_bodies if q.endswith('::next_inner')]:
+        B = hirq.Body(f, f.hir[p])
+        outs, _I = sem.paths(f, B, result_combinators=True)
+        is_recv = lambda t: t[0] == 'call' and t[1].endswith('UnboundedReceiver::<T>::recv')
+        def recv_result(v):
+            if v[0] == 'await' and is_recv(v[1]):
+                return True
+            return v[0] == 'variant' and v[2] == 'Ok' and v[1][0] == 'await' and v[1][1][0] == 'call' and v[1][1][1] == 'tokio::time::timeout::timeout' and is_recv(v[1][1][2][1])
+        n_eos = 0
+        for o in outs:
+            if o.kind in ('ret', 'val') and sem.has(o.val, lambda x: x[0] == 'ctor' and x[1] == 'LdapError::EndOfStream'):
+                n_eos += 1
+                ctx.add('L3.end-of-stream-only-when-channel-closed', p, loc(B.root), sem.failed(o, recv_result),
+                        'the stream reports EndOfStream on a path where the item channel did not itself yield None: delivered items can be lost')
+        items = [o for o in outs if o.kind in ('ret', 'val') and sem.is_ok_result(o.val) and sem.has(o.val, lambda x: x[0] == 'ctor' and x[1].endswith('ResultEntry'))]
+        for o in items:
+            ctx.add('L3.item-is-what-was-received', p, loc(B.root), sem.succeeded(o, recv_result),
+                    'an item is returned on a path where the channel receive did not yield it')
+        ctx.floor('L3', 'end-of-stream paths', n_eos, 1)
 
-    # ---- L4 fail fast
+    # ---- L4 fail fast: on every path the request is handed to the driver before the first await, and a failed hand-over ends the call
     O = C.op_call
-    sends = anchors.method_calls(O.root, 'UnboundedSender::<T>::send', lambda r: hirq.strip_refs(r.get('ty', '')) == anchors.T_REQ_SENDER)
-    awaits = [n for n, c in walk(O.root) if n['k'] == 'Await']
-    for s, c in sends:
-        tried = any(a['k'] == 'Try' for a, _ in c[-2:])
-        ctx.add('L4.send-propagates', O.path, loc(s), tried, 'a failed request send (driver gone) is not returned to the caller')
-        ctx.add('L4.send-before-await', O.path, loc(s), all(O.before(s, a) for a in awaits), 'the operation awaits something before the request is handed to the driver')
+    outs, _I = sem.paths(f, O, result_combinators=True)
+    for o in outs:
+        snd = [(i, args, node) for i, cal, args, node in sem.calls(o, lambda c: c.endswith('UnboundedSender::<T>::send')) if sem.recv_ty(node) == anchors.T_REQ_SENDER]
+        aws = sem.awaits(o)
+        if aws:
+            ctx.add('L4.send-before-await', O.path, loc(O.root), bool(snd) and snd[0][0] < aws[0][0], 'the operation awaits something before the request is handed to the driver')
+        for i, args, node in snd:
+            sid = node.get('id')
+            if sem.failed(o, lambda v: sem.has(v, lambda x: x[0] == 'call' and x[3] == sid)):
+                ctx.add('L4.send-propagates', O.path, loc(node), sem.is_err_result(o.val) and not aws, 'a failed request send (driver gone) is not returned to the caller at once')
 
     # ---- L5 unbind
     req = C.arms['request']
